@@ -990,6 +990,17 @@ pub fn run(cx: &mut Ctx) {
             }
         }
     }
+    // two-sample KS at very small sqrt(n_eff)*D: large, heavily tied samples whose ECDFs nearly coincide.  The
+    // alternating Kolmogorov series needs ~3.4/x terms there, so a truncated or loosely terminated series shows
+    // only on such inputs (x < 0.05 is unreachable with n <= 200 untied one-sample data).
+    for k in [60usize, 100, 150, 199] {
+        let a: Vec<f64> = (0..2 * k).map(|i| if i < k { 0.0 } else { 1.0 }).collect();
+        let b: Vec<f64> = (0..2 * k - 1).map(|i| if i < k { 0.0 } else { 1.0 }).collect();
+        run_ks2_case(cx, &mut st, &a, &b);
+        let c: Vec<f64> = (0..3 * k).map(|i| (i / k) as f64).collect();
+        let d: Vec<f64> = (0..3 * k - 2).map(|i| (i / k) as f64).collect();
+        run_ks2_case(cx, &mut st, &c, &d);
+    }
     if th {
         // f_oneway: two groups of length <= 4 x <= 3, and three groups of length <= 2
         let w4 = words(4, 4);
